@@ -34,6 +34,7 @@ type ReqSpec struct {
 	NoWait       bool          `json:"no_wait,omitempty"`       // do not wait for quiescence
 	Reuse        bool          `json:"reuse,omitempty"`         // caller reuses (mutates) its request object once the body is closed
 	KeepBody     bool          `json:"-"`                       // leave the body unread (Mode R callers)
+	LateBody     bool          `json:"late_body,omitempty"`     // read the body only after background work triggered by the request has quiesced
 }
 
 // ReqSnap is a deep snapshot of the caller's request object.
@@ -416,6 +417,9 @@ func (w *World) Run(ex *Exchange) {
 		ex.Status = resp.StatusCode
 		ex.Proto = resp.Proto
 		ex.Header = resp.Header.Clone()
+		if spec.LateBody && !spec.NoWait && w.InBubble {
+			synctest.Wait() // whatever the cache still does with this response happens first
+		}
 		if !spec.KeepBody && resp.Body != nil {
 			b, rerr := io.ReadAll(resp.Body)
 			ex.Body = b
